@@ -133,7 +133,25 @@ def literal_eval(ex, f, args, kwargs, fr):
             v = _ast.literal_eval(s.v)
         except Exception:
             ex.throw("ValueError", "malformed node or string")
-        return VInt(v) if isinstance(v, int) and not isinstance(v, bool) else VFloat(v) if isinstance(v, float) else VStr(v) if isinstance(v, str) else NONE
+        def val(x):
+            if isinstance(x, bool):
+                return VBool(x)
+            if isinstance(x, int):
+                return VInt(x)
+            if isinstance(x, float):
+                return VFloat(x)
+            if isinstance(x, str):
+                return VStr(x)
+            if x is None:
+                return NONE
+            if isinstance(x, tuple):
+                return VTuple([val(y) for y in x])
+            if isinstance(x, list):
+                return ex.st.alloc(HList([val(y) for y in x]))
+            if isinstance(x, dict):
+                return ex.st.alloc(HDict([(val(k), val(y)) for k, y in x.items()]))
+            raise Unsupported(f"literal of type {type(x).__name__}")
+        return val(v)
     if ex.st.branch(parses(s.v)):
         return VInt(denotes_int(s.v))
     ex.throw("ValueError", "malformed node or string")
@@ -492,7 +510,8 @@ def conv(u: Unit):
     cfg = mk_cfg(u)
     rp = lambda w: {"code": """
 from pyxel.evaluator import eval_entry
-cases = [('12', 12), ('1.5', 1.5), ('[1, 2]', [1, 2]), ('abc', 'abc'), ("'quoted'", 'quoted'), (3, 3), (2.5, 2.5), ('True', True), ('1e3', 1000.0)]
+cases = [('12', 12), ('1.5', 1.5), ('[1, 2]', [1, 2]), ('abc', 'abc'), ("'quoted'", 'quoted'), (3, 3), (2.5, 2.5), ('True', True), ('False', False), ('1e3', 1000.0),
+         ('parallel', 'parallel'), ('(1, 2)', (1, 2)), ('-3', -3)]
 bad = [(a, eval_entry(a), b) for a, b in cases if eval_entry(a) != b or type(eval_entry(a)) is not type(b)]
 VIOLATED, DETAIL = bool(bad), 'eval_entry mismatches: ' + repr(bad)
 """, "expect": "textual values denote the number / list / string they literally are"}
@@ -517,6 +536,28 @@ VIOLATED, DETAIL = bool(bad), 'eval_entry mismatches: ' + repr(bad)
         else:
             u.oblige(p, "conv.plain_text_is_itself", z3.And(z3.Not(parses(s.v)), zb(isinstance(r, VStr)) , (z_str(r.v) == s.v) if isinstance(r, VStr) else z3.BoolVal(False)), {}, rp)
     u.cover("conv.cover[text]", ps, lambda p: p.kind == "return")
+    # concrete texts: the result is what the text literally denotes (the keywords True / False / None included), else the text
+    import ast as _ast
+
+    def to_py(p, v):
+        if isinstance(v, VNone):
+            return None
+        if isinstance(v, (VInt, VFloat, VBool, VStr)) and is_conc(v.v):
+            return v.v
+        if isinstance(v, VTuple):
+            return tuple(to_py(p, x) for x in v.items)
+        items = p.ex.try_list(v)
+        if items is not None:
+            return [to_py(p, x) for x in items]
+        return ("<symbolic>", repr(v))
+    for text in ("True", "False", "12", "-3", "1.5", "1e3", "[1, 2]", "(1, 2)", "abc", "parallel", "hello world", "x1", "_", "1_000", "0x10", "nan"):
+        try:
+            want = _ast.literal_eval(text)
+        except (ValueError, SyntaxError):
+            want = text
+        for p in u.paths(fi, lambda ex, text=text: ([VStr(text)], {}), cfg, label=f"eval_entry[{text!r}]"):
+            got = to_py(p, p.value) if p.kind == "return" else ("<raised>", p.exc_name())
+            u.oblige(p, f"conv.concrete_text[{text}]", bool(p.kind == "return" and got == want and type(got) is type(want)), {"text": text, "got": repr(got), "want": repr(want)}, rp)
     for tag, v in (("int", VInt(z3.Int("n"))), ("float", VFloat(z3.Real("x"))), ("bool", VBool(z3.Bool("b")))):
         for p in u.paths(fi, lambda ex, v=v: ([v], {}), cfg, label=f"eval_entry[{tag}]"):
             u.oblige(p, f"conv.non_text_unchanged[{tag}]", p.kind == "return" and p.value is v, {}, rp)
